@@ -26,6 +26,10 @@ Entry fields beyond the 4-tuple:
                      broadcastable against the raveled field), for families whose IR term is
                      `mulField`; None otherwise
     passive          |transmission| <= 1 by construction (for C07)
+    modes            optional: (element, wavelength) -> 2-D array (N x k) whose columns are the element's own
+                     eigen-/basis modes on the *input* grid as the element exposes them (fibre modes, mirror
+                     influence functions, coronagraph mode basis, lenslet cells, corrected modes); used to build
+                     inputs that excite one mode each (see `element_modes`)
     notes            free text
 """
 import contextlib
@@ -42,7 +46,7 @@ ALL = (S, V, T)
 class Entry(object):
     def __init__(self, name, cls, factory, input_grid, kinds, output_grid='same', backward_kinds='same',
                  conj_forward=False, conj_backward=False, multi=False, wavelengths=(1.0, 0.75), family='?',
-                 mult=None, passive=False, notes=''):
+                 mult=None, passive=False, notes='', modes=None):
         self.name = name
         self.cls = cls
         self._factory = factory
@@ -58,6 +62,7 @@ class Entry(object):
         self.wavelengths = tuple(wavelengths)
         self.family = family
         self.mult = mult
+        self.modes = modes
         self.passive = passive
         self.notes = notes
 
@@ -239,7 +244,7 @@ def elements(rng, only=None):
         d = hp.DeformableMirror(infl)
         d.actuators = acts.copy()
         return d
-    add('DeformableMirror[gaussian,sparse]', hp.DeformableMirror, dm, pupil, ALL, family='mirror', passive=True,
+    add('DeformableMirror[gaussian,sparse]', hp.DeformableMirror, dm, pupil, ALL, modes=lambda el, wl: _dense(el.influence_functions.transformation_matrix), family='mirror', passive=True,
         mult=lambda el, wl, d: np.exp((2j if d == 'forward' else -2j) * 2 * np.pi / wl * np.asarray(el.surface)))
     dense_modes = dyadic_array(rng, (rect.size, 4), -1.0, 1.0)
     acts4 = dyadic_array(rng, (4,), -0.0625, 0.0625, 8)
@@ -248,7 +253,7 @@ def elements(rng, only=None):
         d = hp.DeformableMirror(hp.ModeBasis(dense_modes.copy(), rect))
         d.actuators = acts4.copy()
         return d
-    add('DeformableMirror[dense]', hp.DeformableMirror, dm_dense, rect, ALL, family='mirror', passive=True,
+    add('DeformableMirror[dense]', hp.DeformableMirror, dm_dense, rect, ALL, modes=lambda el, wl: _dense(el.influence_functions.transformation_matrix), family='mirror', passive=True,
         mult=lambda el, wl, d: np.exp((2j if d == 'forward' else -2j) * 2 * np.pi / wl * dense_modes.dot(acts4)))
     tt = dyadic_array(rng, (2,), -0.125, 0.125, 8)
 
@@ -256,7 +261,7 @@ def elements(rng, only=None):
         m = hp.TipTiltMirror(rect)
         m.actuators = tt.copy()
         return m
-    add('TipTiltMirror', hp.TipTiltMirror, ttm, rect, ALL, family='mirror', passive=True,
+    add('TipTiltMirror', hp.TipTiltMirror, ttm, rect, ALL, modes=lambda el, wl: _dense(el.influence_functions.transformation_matrix), family='mirror', passive=True,
         mult=lambda el, wl, d: np.exp((2j if d == 'forward' else -2j) * 2 * np.pi / wl * (tt[0] * rect.x + tt[1] * rect.y)))
     seg_acts = dyadic_array(rng, (6,), -0.0625, 0.0625, 8)
 
@@ -266,7 +271,7 @@ def elements(rng, only=None):
         m = hp.SegmentedDeformableMirror(segs)
         m.actuators = seg_acts.copy()
         return m
-    add('SegmentedDeformableMirror', hp.SegmentedDeformableMirror, segdm, pupil, ALL, family='mirror', passive=True,
+    add('SegmentedDeformableMirror', hp.SegmentedDeformableMirror, segdm, pupil, ALL, modes=lambda el, wl: _dense(el.influence_functions.transformation_matrix), family='mirror', passive=True,
         mult=lambda el, wl, d: np.exp((2j if d == 'forward' else -2j) * 2 * np.pi / wl * np.asarray(el.surface)))
 
     # ---------------- magnifier, empty, systems ---------------------------------------------
@@ -322,40 +327,40 @@ def elements(rng, only=None):
     one.weights = 1
     add('SingleModeFiberInjection', hp.SingleModeFiberInjection,
         lambda: hp.SingleModeFiberInjection(fsmall, hp.make_gaussian_fiber_mode(2.0)), fsmall, (S,), output_grid=one,
-        conj_forward=True, family='fibre-injection', passive=True,
+        conj_forward=True, modes=lambda el, wl: np.asarray(el.mode)[:, None], family='fibre-injection', passive=True,
         notes='forward conjugates the field (conjugate-linear); vector/tensor inputs are not supported by the code')
     pos = np.array([0.5, -0.25])
     one_p = hp.CartesianGrid(hp.RegularCoords([1, 1], [1, 1], pos))
     one_p.weights = 1
     add('SingleModeFiberInjection[offset]', hp.SingleModeFiberInjection,
         lambda: hp.SingleModeFiberInjection(fsmall, hp.make_gaussian_fiber_mode(1.5), pos.copy()), fsmall, (S,), output_grid=one_p,
-        conj_forward=True, family='fibre-injection', passive=True)
+        conj_forward=True, modes=lambda el, wl: np.asarray(el.mode)[:, None], family='fibre-injection', passive=True)
     fibre_grid = hp.make_pupil_grid(2, 2.0)
     add('SingleModeFiberArray', hp.SingleModeFiberArray,
         lambda: hp.SingleModeFiberArray(fsmall, fibre_grid, hp.make_gaussian_fiber_mode(1.5)), fsmall, (S,), output_grid=fibre_grid,
-        conj_forward=True, family='fibre-injection', passive=True)
-    add('StepIndexFiber', hp.StepIndexFiber, lambda: hp.StepIndexFiber(1.0, 0.5, 2.0), fsmall, (S, V), family='fibre-modes', passive=True,
+        conj_forward=True, modes=lambda el, wl: np.asarray(el.projection_matrix), family='fibre-injection', passive=True)
+    add('StepIndexFiber', hp.StepIndexFiber, lambda: hp.StepIndexFiber(1.0, 0.5, 2.0), fsmall, (S, V), modes=lambda el, wl: np.asarray(el.get_instance_data(fsmall, None, wl).fiber_modes.transformation_matrix), family='fibre-modes', passive=True,
         wavelengths=(1.0, 0.75))
 
     def lantern():
         modes = hp.make_lp_modes(fsmall, 1.5 * np.pi, 1.0)
         return hp.PhotonicLantern(modes)
-    add('PhotonicLantern', hp.PhotonicLantern, lantern, fsmall, (S,), output_grid='lantern', conj_forward=True, family='fibre-injection', passive=True)
+    add('PhotonicLantern', hp.PhotonicLantern, lantern, fsmall, (S,), output_grid='lantern', conj_forward=True, modes=lambda el, wl: np.asarray(el.projection_matrix), family='fibre-injection', passive=True)
 
     # ---------------- micro-lens arrays, Shack-Hartmann -------------------------------------
     mla_grid = hp.make_pupil_grid(2, 1.0)
-    add('MicroLensArray[closest]', hp.MicroLensArray, lambda: hp.MicroLensArray(pupil, mla_grid, 2.0), pupil, ALL, family='apodizer', passive=True)
+    add('MicroLensArray[closest]', hp.MicroLensArray, lambda: hp.MicroLensArray(pupil, mla_grid, 2.0), pupil, ALL, modes=lambda el, wl: _cells(el.mla_index), family='apodizer', passive=True)
     add('MicroLensArray[shape]', hp.MicroLensArray,
-        lambda: hp.MicroLensArray(pupil, mla_grid, 2.0, hp.make_rectangular_aperture(0.5)), pupil, ALL, family='apodizer', passive=True)
+        lambda: hp.MicroLensArray(pupil, mla_grid, 2.0, hp.make_rectangular_aperture(0.5)), pupil, ALL, modes=lambda el, wl: _cells(el.mla_index), family='apodizer', passive=True)
     add('SphericalMicroLensArray', hp.SphericalMicroLensArray,
-        lambda: hp.SphericalMicroLensArray(pupil, mla_grid, 2.0, hp.make_rectangular_aperture(0.5), 1.5), pupil, ALL, family='apodizer', passive=True)
+        lambda: hp.SphericalMicroLensArray(pupil, mla_grid, 2.0, hp.make_rectangular_aperture(0.5), 1.5), pupil, ALL, modes=lambda el, wl: _cells(el.mla_index), family='apodizer', passive=True)
     add('EvenAsphereMicroLensArray', hp.EvenAsphereMicroLensArray,
         lambda: hp.EvenAsphereMicroLensArray(pupil, mla_grid, 2.0, hp.make_rectangular_aperture(0.5), 1.5, -0.5, [0.125]), pupil, ALL,
-        family='apodizer', passive=True)
+        modes=lambda el, wl: _cells(el.mla_index), family='apodizer', passive=True)
     add('ShackHartmannWavefrontSensorOptics', hp.ShackHartmannWavefrontSensorOptics,
-        lambda: hp.ShackHartmannWavefrontSensorOptics(pupil, hp.MicroLensArray(pupil, mla_grid, 2.0)), pupil, ALL, family='system', passive=True)
+        lambda: hp.ShackHartmannWavefrontSensorOptics(pupil, hp.MicroLensArray(pupil, mla_grid, 2.0)), pupil, ALL, modes=lambda el, wl: _cells(el.mla_index), family='system', passive=True)
     add('SquareShackHartmannWavefrontSensorOptics', hp.SquareShackHartmannWavefrontSensorOptics,
-        lambda: hp.SquareShackHartmannWavefrontSensorOptics(pupil, 4.0, 2, 1.0), pupil, ALL, family='system', passive=True)
+        lambda: hp.SquareShackHartmannWavefrontSensorOptics(pupil, 4.0, 2, 1.0), pupil, ALL, modes=lambda el, wl: _cells(el.mla_index), family='system', passive=True)
 
     # ---------------- coronagraphs ----------------------------------------------------------
     fpm = hp.Field(dyadic_array(rng, (focal.size,), 0.0, 1.0) * np.exp(1j * dyadic_array(rng, (focal.size,), -3.0, 3.0)), focal)
@@ -370,8 +375,8 @@ def elements(rng, only=None):
     add('KnifeEdgeLyotCoronagraph[stop]', hp.KnifeEdgeLyotCoronagraph,
         lambda: hp.KnifeEdgeLyotCoronagraph(pupil, 3, '+x', None, stop.copy()), pupil, (S,), family='knife')
     ap = hp.make_circular_aperture(1.0)(pupil)
-    add('PerfectCoronagraph[order2]', hp.PerfectCoronagraph, lambda: hp.PerfectCoronagraph(ap.copy(), 2), pupil, ALL, family='projection', passive=True)
-    add('PerfectCoronagraph[order4]', hp.PerfectCoronagraph, lambda: hp.PerfectCoronagraph(ap.copy(), 4), pupil, ALL, family='projection', passive=True)
+    add('PerfectCoronagraph[order2]', hp.PerfectCoronagraph, lambda: hp.PerfectCoronagraph(ap.copy(), 2), pupil, ALL, modes=lambda el, wl: np.asarray(el.transformation), family='projection', passive=True)
+    add('PerfectCoronagraph[order4]', hp.PerfectCoronagraph, lambda: hp.PerfectCoronagraph(ap.copy(), 4), pupil, ALL, modes=lambda el, wl: np.asarray(el.transformation), family='projection', passive=True)
     ms_q, ms_sf, ms_w = 8, 2, 4
     cmask = lambda grid: hp.Field(np.exp(1j * 2 * grid.as_('polar').theta), grid)     # noqa: E731
     add('MultiScaleCoronagraph', hp.MultiScaleCoronagraph,
@@ -436,7 +441,7 @@ def elements(rng, only=None):
         m.evolve_until(0.25)
         m.evolve_until(0.5)
         return m
-    add('ModalAdaptiveOpticsLayer', hp.ModalAdaptiveOpticsLayer, modal, pupil, ALL, family='layer', passive=True,
+    add('ModalAdaptiveOpticsLayer', hp.ModalAdaptiveOpticsLayer, modal, pupil, ALL, modes=lambda el, wl: np.asarray(el.transformation_matrix), family='layer', passive=True,
         mult=lambda el, wl, d: np.exp((1j if d == 'forward' else -1j) * np.asarray(el.phase_for(wl))))
     add('MultiLayerAtmosphere', hp.MultiLayerAtmosphere, lambda: hp.MultiLayerAtmosphere([finite(3), infinite(5)], False), pupil, ALL,
         family='system', passive=True)
@@ -463,6 +468,49 @@ def _seeded(seed, f):
         return f()
     finally:
         np.random.default_rng = orig
+
+
+def _dense(m):
+    return np.asarray(m.toarray() if hasattr(m, 'toarray') else m)
+
+
+def _cells(index):
+    """Indicator functions of the lenslet cells (columns)."""
+    index = np.asarray(index)
+    ids = [i for i in np.unique(index) if i >= 0]
+    return np.array([(index == i).astype(float) for i in ids]).T if ids else np.ones((index.size, 1))
+
+
+def generic_modes(grid):
+    """Low-order polynomial modes on any grid: 1, x, y, xy, x^2-y^2, x^2+y^2 (columns), each scaled to max 1."""
+    n = grid.size
+    if n == 1 or grid.ndim != 2:
+        return np.ones((n, 1))
+    x = np.asarray(grid.x, dtype=float)
+    y = np.asarray(grid.y, dtype=float)
+    cols = [np.ones(n), x, y, x * y, x * x - y * y, x * x + y * y]
+    out = []
+    for c in cols:
+        m = np.max(np.abs(c))
+        if m > 0:
+            out.append(c / m)
+    return np.array(out).T
+
+
+def element_modes(entry, el, grid, wl):
+    """Columns = modes on `grid`: the element's own modes where it exposes them on this grid, then generic ones."""
+    cols = []
+    if entry.modes is not None:
+        try:
+            M = np.asarray(entry.modes(el, wl))
+        except Exception as ex:         # noqa
+            raise RuntimeError('registry: modes of %s cannot be read: %s: %s' % (entry.name, type(ex).__name__, ex))
+        if M.ndim == 2 and M.shape[0] == grid.size:
+            cols += [M[:, k] for k in range(min(M.shape[1], 8)) if np.max(np.abs(M[:, k])) > 0]
+    own = len(cols)
+    G = generic_modes(grid)
+    cols += [G[:, k] for k in range(G.shape[1])]
+    return np.array(cols, dtype=complex).T, own
 
 
 def _with_input_grid(el, grid):
